@@ -2204,8 +2204,16 @@ func (interp *Interpreter) cfg(root *node, sc *scope, importPath, pkgName string
 				} else {
 					body := c.lastChild()
 					c.tnext = body.start
-					c.child[0].tnext = c
-					c.start = c.child[0].start
+					// Evaluate all the expressions of the case list, then the clause itself.
+					c.start = body.start
+					for j, e := range c.child[:len(c.child)-1] {
+						if j == 0 {
+							c.start = e.start
+						} else {
+							c.child[j-1].tnext = e.start
+						}
+						e.tnext = c
+					}
 
 					if nc := nextClause(clauses, c); nc != nil && len(body.child) > 0 && body.lastChild().kind == fallthroughtStmt {
 						if n.kind == typeSwitch {
